@@ -156,6 +156,12 @@ func runC09(c *Ctx) {
 					if rg, ok := in.(*ssa.Range); ok && isNamed(rg.X.Type(), "ctree", "branch") {
 						e.emit(st, Ev{Label: "fact", In: in, F: fr, Note: "range-children"})
 					}
+					// ... or handed to an iterator of package maps (maps.Keys(b), maps.All(b))
+					if call, ok := in.(*ssa.Call); ok && len(call.Call.Args) > 0 {
+						if g := staticCallee(&call.Call); g != nil && pkgPathOf(g) == "maps" && isNamed(call.Call.Args[0].Type(), "ctree", "branch") {
+							e.emit(st, Ev{Label: "fact", In: in, F: fr, Note: "range-children"})
+						}
+					}
 				},
 				Watch: func(ev *Ev) bool { return ev.Label == "fact" || isVisit(ev) }}
 			e.Run(root)
@@ -347,7 +353,7 @@ func runC09(c *Ctx) {
 	}
 	// prune guard: delete only after a removable child
 	for _, rec := range []bool{true, false} {
-		e := run(map[string]bool{"ISBRANCH": true, "REC": rec}, map[string]int64{}, 3)
+		e := run(map[string]bool{"ISBRANCH": true, "EMPTY": false, "REC": rec}, map[string]int64{}, 3)
 		nP := 0
 		for i := range e.Paths {
 			p := &e.Paths[i]
@@ -378,7 +384,7 @@ func runC09(c *Ctx) {
 		glob   bool
 	}{{"glob over a branch, more glob elements follow", 2, true}, {"glob over a branch, last element", 1, true}, {"path exhausted at a branch", 0, false}, {"explicit child", 1, false}} {
 		for _, left := range []int64{0, 1} {
-			e := run(map[string]bool{"GLOB": sc.glob, "ISBRANCH": true}, map[string]int64{"SUBLEN": sc.sublen, "LENB": left}, 2)
+			e := run(map[string]bool{"GLOB": sc.glob, "ISBRANCH": true, "EMPTY": false}, map[string]int64{"SUBLEN": sc.sublen, "LENB": left}, 2)
 			nP := 0
 			for i := range e.Paths {
 				p := &e.Paths[i]
